@@ -495,6 +495,9 @@ class DatasetProcessor:
         if self.args.read_assignments:
             saves_file = sample.file_list[0][0]
             logger.info('Using read assignments from {}*'.format(saves_file))
+            if not self.args.resume:
+                # locks left next to the saved assignments by an earlier, interrupted run that used them
+                clean_locks(self.get_chr_list(), saves_file, reads_processed_lock_file_name)
         else:
             self.collect_reads(sample)
             saves_file = sample.out_raw_file
